@@ -12,6 +12,7 @@ TRUSTED = [
     "Coq 8.16.1 kernel (coqc, vm_compute); no axioms: every theorem is 'Closed under the global context'",
     "translators vplib/translate/gen_{pratt,doc_prec,sql_strength,std_sql,expand}.py (regex/brace scanners over expr.rs, ops.rs, operators.md, gen_expr.rs, operators.rs, ast_expand.rs; std.sql.prql through prqlc's own parser; fail closed; Rust sources are read with every #[cfg(prqlc_verif)] item blanked -- c02_util.strip_verif). The template skeletons they emit are re-checked in Coq (template_wf: the skeleton renders to exactly the template text)",
     "hand-modelled algorithms tied to the source by exact text (needs_parentheses, translate_operand, translate_binary_operator, process_null, try_into_between, translate_operator, static_eval_rq_operator, static_eval_case, the `in` desugaring, the Normalizer): any edit breaks the tie",
+    "Model/DateFormat.v parse_fmt: hand model of chrono 0.4 StrftimeItems (an external crate) for the specifiers the dialect tables translate; validated on every run by the datefmt stream (whole emitted expression, 6 dialects). The tables, literal treatments and has_concat_function / backslash_escape come from gen_date_format.py and C07's gen_dialect_feat.py (regenerated on every run)",
     "Model/SqlGrammar.v: SQLite's operator precedence/associativity (from sqlite.org/lang_expr.html) and Model/SqlSem.v: SQLite's scalar semantics (integer '/', ROUND half away from zero, ABS, SIGN, COALESCE, POW, three-valued logic) -- validated on every run: each emitted expression is executed on SQLite and compared with the engine model's prediction",
     "Model/Value.v + Model/EvalDoc.v: the documented meaning (exact Z/Q arithmetic; the oracle only compares rows whose intermediate values are exactly representable in binary64)",
     "correspondence harness (prqlc::prql_to_pl, prqlc::compile, rusqlite in-memory SQLite 3.x) and the python comparison; the python mirror of eval_doc / eval_sql is cross-validated against the Coq definitions on a sample of rows in every run",
